@@ -292,6 +292,61 @@ func blsSections(t *T) {
 		ok, _ := gpk.Verify(ts, msg, hk)
 		t.line("bls-thr", "reconstruct", fmt.Sprint(signers), fmt.Sprintf("%s/%s/%v", hx(ts), errClass(err), ok))
 	}
+	// large groups (participant indices up to the maximum 253): one dealer, a few receivers; every
+	// receiver derives all public key shares from the verification vector
+	for gi, g := range [][2]int{{254, 1}, {254, 3}, {200, 5}, {172, 2}} {
+		nn, tt := g[0], g[1]
+		for _, qual := range []bool{false, true} {
+			mkInst := func(id int, pr crypto.DKGProcessor) (crypto.DKGState, error) {
+				if qual {
+					return crypto.NewFeldmanVSSQual(nn, tt, id, pr, 0)
+				}
+				return crypto.NewFeldmanVSS(nn, tt, id, pr, 0)
+			}
+			dp := &tproc{shares: map[int][]byte{}}
+			dealer, err := mkInst(0, dp)
+			if err != nil {
+				t.line("bls-dkg-large", "new", fmt.Sprint(nn, tt, qual), "error")
+				continue
+			}
+			seed := make([]byte, 32)
+			for i := range seed {
+				seed[i] = byte(r.Uint32())
+			}
+			_ = dealer.Start(seed)
+			recv := []int{1, 127, 128, 169, 170, 171, 199, 253}
+			if t.quick && gi > 1 {
+				recv = []int{170, 171}
+			}
+			for _, id := range recv {
+				if id >= nn || len(dp.bcast) == 0 {
+					continue
+				}
+				rp := &tproc{shares: map[int][]byte{}}
+				in, err := mkInst(id, rp)
+				if err != nil {
+					continue
+				}
+				_ = in.Start(seed)
+				_ = in.HandleBroadcastMsg(0, dp.bcast[0])
+				_ = in.HandlePrivateMsg(0, dp.shares[id])
+				if qual {
+					_ = in.NextTimeout()
+					_ = in.NextTimeout()
+				}
+				sk, gpk, pks, err := in.End()
+				out := errClass(err)
+				if err == nil {
+					var all []byte
+					for _, pk := range pks {
+						all = append(all, pk.Encode()...)
+					}
+					out += "/" + hx(sk.Encode()) + "/" + dg(gpk.Encode()) + "/" + dg(all) + "/" + dg(pks[id].Encode()) + fmt.Sprint(rp.ev)
+				}
+				t.line("bls-dkg-large", fmt.Sprintf("%d/%d/qual=%v", nn, tt, qual), id, out)
+			}
+		}
+	}
 	// DKG message transcripts: all-honest runs of the network simulator under a fixed schedule
 	dk := 8
 	if !t.quick {
@@ -326,3 +381,15 @@ func blsSections(t *T) {
 		}
 	}
 }
+
+// tproc is a recording DKG processor for the large-group runs.
+type tproc struct {
+	shares map[int][]byte
+	bcast  [][]byte
+	ev     []string
+}
+
+func (p *tproc) PrivateSend(dest int, data []byte) { p.shares[dest] = append([]byte{}, data...) }
+func (p *tproc) Broadcast(data []byte)             { p.bcast = append(p.bcast, append([]byte{}, data...)) }
+func (p *tproc) Disqualify(i int, _ string)        { p.ev = append(p.ev, fmt.Sprintf("disq%d", i)) }
+func (p *tproc) FlagMisbehavior(i int, _ string)   { p.ev = append(p.ev, fmt.Sprintf("flag%d", i)) }
